@@ -263,6 +263,11 @@ func getPrevSnapshot(testID, snapPath string) (string, int, error) {
 }
 
 func addNewSnapshot(testID, snapshot, snapPath string) error {
+	// updateSnapshot rewrites the whole file from what it read under the lock,
+	// an append in between would be lost
+	_m.Lock()
+	defer _m.Unlock()
+
 	if err := os.MkdirAll(filepath.Dir(snapPath), os.ModePerm); err != nil {
 		return err
 	}
